@@ -86,6 +86,10 @@ func handleUnionStatement(query, pattern sqlparser.Statement) bool {
 		return true
 	}
 
+	match = strings.EqualFold(queryUnionNode.Type, patternUnionNode.Type)
+	if !match {
+		return false
+	}
 	match = areEqualSelectStatement(queryUnionNode.Left, patternUnionNode.Left)
 	if !match {
 		return false
